@@ -1,21 +1,46 @@
 #!/bin/bash
 # usage: ./run.sh Cxx quick|thorough   |   ./run.sh replay <file>
 # Rebuilds mc against /repo's current working tree (module replace => /repo) with the verif tag.
+# exit 0: property held on everything explored; exit 1 + "VIOLATION property=<id> replay=<path>": violation;
+# exit 2: harness error (never a verdict about gonnx).
 export GOFLAGS=-mod=mod GOPROXY=off GOSUMDB=off GOTOOLCHAIN=local
 export PATH=$PATH:/usr/local/go/bin
-cd "$(dirname "$0")/mc" || exit 2
+ROOT="$(cd "$(dirname "$0")" && pwd)"
+cd "$ROOT/mc" || exit 2
 cp -f /repo/go.sum go.sum 2>/dev/null
-BIN=../bin/mc
-mkdir -p ../bin
-if ! out=$(go build -tags verif -o $BIN ./cmd/mc 2>&1); then
-  echo "HARNESS-ERROR: build failed"; echo "$out"; exit 2
+mkdir -p ../bin ../replays ../evidence
+if ! out=$(go build -tags verif -o ../bin/mc ./cmd/mc 2>&1); then
+  # /repo's working tree does not compile together with the harness (e.g. a hook-visible API changed)
+  echo "HARNESS-ERROR: build failed"; echo "$out" | head -40; exit 2
 fi
-if [ "$1" = "C17" ] && [ "${2:-${VERIF_TIER:-quick}}" = "thorough" ]; then
+TIER="${2:-${VERIF_TIER:-quick}}"
+if [ "$1" = "C17" ] && [ "$TIER" = "thorough" ]; then
   # the supplementary free-running race pass needs a separately built -race binary
   go build -race -tags verif -o ../bin/mc-race ./cmd/mc >/dev/null 2>&1 || echo "note: -race build failed; race pass will be skipped"
 fi
-cd ..
+cd "$ROOT"
 case "$1" in
   replay) exec ./bin/mc replay "$2" ;;
-  *) exec ./bin/mc check "$1" "${2:-${VERIF_TIER:-quick}}" ;;
 esac
+PROP="$1"
+LOG="$ROOT/replays/$PROP/last-$TIER.log"
+mkdir -p "$ROOT/replays/$PROP"
+LIMIT=2400; [ "$TIER" = "thorough" ] && LIMIT=14400
+timeout -k 10 $LIMIT ./bin/mc check "$PROP" "$TIER" > "$LOG" 2>&1
+rc=$?
+# show the verdict lines (and a bounded amount of detail)
+grep -E "^(VIOLATION|KNOWN-FINDING|SUMMARY|HARNESS-ERROR|FLAKY|  note:)" "$LOG" | head -200
+grep -A2 "^VIOLATION" "$LOG" | grep -E "^  " | head -60
+if [ $rc -eq 0 ] || [ $rc -eq 1 ]; then exit $rc; fi
+if [ $rc -eq 124 ] || [ $rc -eq 137 ]; then
+  echo "HARNESS-ERROR: check exceeded its wall-clock limit of ${LIMIT}s (no verdict)"; exit 2
+fi
+if grep -q "^HARNESS-ERROR" "$LOG"; then exit 2; fi
+# The check process died (fatal runtime error / unrecovered panic in a goroutine the harness does not own,
+# e.g. a fault inside a gorgonia worker, concurrent map writes, stack exhaustion). On the unchanged tree this
+# never happens; with a modified /repo it is the library crashing under the explored inputs: report it.
+CRASH="$ROOT/replays/$PROP/crash-$TIER.log"
+tail -n 120 "$LOG" > "$CRASH"
+echo "VIOLATION property=$PROP replay=$CRASH"
+echo "  the check process crashed (exit $rc): $(grep -m1 -E '^(fatal error|panic):' "$LOG" | cut -c1-200)"
+exit 1
